@@ -594,6 +594,8 @@ class Interp:
             return type(a)(list(a) + list(b))
         if op is ast.BitXor and isinstance(a, bool) and isinstance(b, bool):
             return a ^ b
+        if op is ast.Sub and isinstance(a, (set, frozenset)) and isinstance(b, (set, frozenset)):
+            return a - b
         # fresh leaf: c * ones_like(x, requires_grad=True)
         if op is ast.Mult and (isinstance(a, OnesLeaf) or isinstance(b, OnesLeaf)):
             other = b if isinstance(a, OnesLeaf) else a
